@@ -210,7 +210,7 @@ pub fn generate(seed: u64, tier: &str, sink: &mut Sink) {
 
 /// A prepared request whose first transmission fails in the middle of the body (the connection breaks) is sent
 /// again: the second transmission carries the whole form.
-fn resend_cases(rng: &mut Rng, n: usize, sink: &mut Sink) {
+pub fn resend_cases(rng: &mut Rng, n: usize, sink: &mut Sink) {
     use attohttpc::verif_hooks;
     for i in 0..n {
         let nb = *rng.pick(&[20_000usize, 70_000, 9000]);
